@@ -906,3 +906,54 @@ Example C10_avl_reader_rejects :
       d_wf d = true /\ d_bst d = true /\ d_bal d = true) /\
    ~ inv 8 avl_rs_bad).
 Proof. exact (conj reject_live_and_free (conj reject_cycle (conj reject_shared avl_reader_not_inv))). Qed.
+
+(* ------------------------------------------------------------------ *)
+(* Explicit handles, continued (Avl/SessionMore.v). *)
+From Coq Require Import Permutation.
+From Stevia Require Import Avl.Master Avl.LinkSteps Avl.LinkInsert Avl.Session Avl.SessionFacts Avl.Capacity Avl.EndToEnd Avl.SessionMore.
+(* the independent reader on the bytes after any session history *)
+Theorem C10_session_bytes_doc :
+  forall (wbytes : nat) (lay : layout),
+  wbytes = 1%nat \/ wbytes = 4%nat ->
+  0 < ksz lay ->
+  0 < vsz lay ->
+  forall (capacity nr : N) (keep : bool) (ops : list op),
+  capacity <= nr ->
+  nr + 1 < 2 ^ DocFacts.bits_of wbytes ->
+  growth_okw_sess (DocFacts.bits_of wbytes) (spec_init_sess capacity nr keep) ops ->
+  ops_fit lay ops ->
+  exists (s : st) (live : bool) (outs : list out) (d : doc),
+  final_sess (DocFacts.bits_of wbytes) (init_sess capacity nr keep) ops =
+  Ok {| c_st := s; c_live := live |} /\
+  run_sess (DocFacts.bits_of wbytes) (init_sess capacity nr keep) ops = map Ok outs /\
+  map out_abs outs = run_s_sess (spec_init_sess capacity nr keep) ops /\
+  live = a_live (final_s_sess (spec_init_sess capacity nr keep) ops) /\
+  decode wbytes lay (encode wbytes lay s) = Some s /\
+  decode_doc wbytes lay (encode wbytes lay s) = Some d /\
+  d_wf d = true /\
+  d_bst d = true /\
+  d_bal d = true /\
+  map (fun x : N * Z * Z => (snd (fst x), snd x)) (d_inorder (d_tree d)) =
+  sents (a_st (final_s_sess (spec_init_sess capacity nr keep) ops)) /\
+  d_hdr d =
+  root s
+  :: s_len (a_st (final_s_sess (spec_init_sess capacity nr keep) ops))
+  :: scap (a_st (final_s_sess (spec_init_sess capacity nr keep) ops)) :: flh s :: seq s :: nil /\
+  word wbytes (encode wbytes lay s) 1 =
+  s_len (a_st (final_s_sess (spec_init_sess capacity nr keep) ops)) /\
+  word wbytes (encode wbytes lay s) 2 =
+  scap (a_st (final_s_sess (spec_init_sess capacity nr keep) ops)) /\
+  NoDup (map TreeInv.tr_slot (d_inorder (d_tree d)) ++ d_free d ++ d_never d) /\
+  (forall i : N,
+  In i (map TreeInv.tr_slot (d_inorder (d_tree d)) ++ d_free d ++ d_never d) <->
+  1 <= i <= snrec (a_st (final_s_sess (spec_init_sess capacity nr keep) ops))) /\
+  (forall i : N,
+  In i (map TreeInv.tr_slot (d_inorder (d_tree d))) ->
+  i <= scap (a_st (final_s_sess (spec_init_sess capacity nr keep) ops))) /\
+  N.of_nat (length (encode wbytes lay s)) =
+  data_len wbytes lay (snrec (a_st (final_s_sess (spec_init_sess capacity nr keep) ops))).
+Proof. exact session_bytes_doc_simple. Qed.
+Print Assumptions C10_session_bytes_doc.
+
+Example C10_session_example_u8 := session_bytes_example_u8.
+Example C10_session_example_u32 := session_bytes_example_u32.
